@@ -150,6 +150,8 @@ class CIACache(Singleton):
             if pair_filter is not None:
                 if pairname not in pair_filter:
                     continue
+            if pairname in self.cia_dict:
+                continue
             op = PickleCIA(files, pairname)
             self.add_cia(op)
 
@@ -166,6 +168,9 @@ class CIACache(Singleton):
             if pair_filter is not None:
                 if pairname not in pair_filter:
                     continue
+            # .db files take priority over .cia files of the same pair
+            if pairname in self.cia_dict:
+                continue
             op = HitranCIA(files)
             self.add_cia(op)
 
